@@ -252,11 +252,24 @@ fn run_e2e(a: &[RegOp], b: &[RegOp], equal: bool, reconnect: bool) -> Option<Fai
     // a second connected peer whose undecodable bytes arrive on the same channel, in the same server frame, in front of
     // every message of the client under test (seed C14r6)
     let peer = if a.len() % 3 == 0 { Some(server.world_mut().spawn(ConnectedClient { max_size: 1200 }).id()) } else { None };
+    // in half of the cases the link loses every client message that travels on a channel declared unreliable, as the channel
+    // contract allows (on the unchanged tree the handshake travels on an ordered channel; seed C14r9)
+    let lossy = (a.len() + b.len()) % 2 == 1;
+    let unreliable: Vec<bool> = client
+        .world()
+        .resource::<bevy_replicon::shared::backend::channels::RepliconChannels>()
+        .client_channels()
+        .iter()
+        .map(|c| matches!(c, Channel::Unreliable))
+        .collect();
     let exchange = move |server: &mut App, client: &mut App, id: Entity| {
         for _ in 0..4 {
             client.update();
             let sent: Vec<_> = client.world_mut().resource_mut::<RepliconClient>().drain_sent().collect();
             for (ch, m) in sent {
+                if lossy && unreliable.get(ch).copied().unwrap_or(false) {
+                    continue;
+                }
                 if let Some(p) = peer {
                     server.world_mut().resource_mut::<RepliconServer>().insert_received(p, ch, vec![0xffu8, 0xff, 0xff, 0xff, 0xff, 0xff]);
                 }
